@@ -166,6 +166,9 @@ def run(run, tier, seed, replay=None):
             fins = []
             for i, c in enumerate(sq):
                 src = (SRC if (i % 2 == 0) else SRC2)[c]
+                if c == "fatal" and (k + i) % 3 == 2:
+                    # third kind of fatally unparsable file: unrecognised text as the very last thing, no final newline
+                    src = SRC["clean"] + ")"
                 name = "f%d_%s.%s" % (i, c, "c")
                 with open(os.path.join(d, name), "w") as f:
                     f.write(src)
